@@ -570,6 +570,17 @@ class Synth:
             return [D_node(c[0]), L(d), L(self.rng.choice([1, 2, 3, 4])), L(0)], {"fold": True}
         size = self.rng.choice([e, f"{e} + 1", f"{e} - 1", f"{e} - 4", f"({e}) / 2", "2", "3", "4", "8", "12"])
         off = self.rng.choice([0, 0, 1, -1, 2])
+        # sizes that a path condition of the procedure would justify (constants compared in its ifs):
+        # a copy of a block under `n == 4` may shrink its buffer to 4, a copy on another path may not
+        consts = set()
+        for _, st in self.v.of_type(LoopIR.If):
+            for _, sub in irutil.sub_exprs(st.cond):
+                if isinstance(sub, LoopIR.Const) and isinstance(sub.val, int) and not isinstance(sub.val, bool) and 1 <= sub.val <= 16:
+                    consts.add(sub.val)
+        if consts and self.rng.random() < 0.5:
+            k = self.rng.choice(sorted(consts))
+            size = str(self.rng.choice([k, k, k + 1]))
+            off = 0
         return [D_node(c[0]), L(d), L(size), L(off)]
 
     def s_rearrange_dim(self):
